@@ -121,7 +121,7 @@ REC_ALLOW = {
 }
 
 
-@rule("REC-FWD", ["C04", "C05", "C07", "C12", "C17", "C01"], floor=8, section="3.6+")
+@rule("REC-FWD", ["C01", "C03", "C04", "C05", "C06", "C07", "C08", "C09", "C10", "C11", "C12", "C14", "C15", "C16", "C17", "C19", "C20"], floor=8, section="3.6+")
 def rec_fwd(ctx: Ctx) -> List[Ob]:
     """a function that calls itself (on another object or stream) passes every one of its options on explicitly; an omitted option silently falls back to its default for the inner call"""
     obs: List[Ob] = []
@@ -157,6 +157,11 @@ def rec_fwd(ctx: Ctx) -> List[Ob]:
                 n = w.name
                 props = ["C05", "C12"] if n in ("save", "load") else ["C17"] if "dot" in n or "mermaid" in n or w.module in ("rdf", "dot", "mermaid") \
                     else ["C07"] if n in ("_add_from", "copy_to") else ["C04", "C01"]
+                from .own import family_props
+
+                fam = family_props(w)
+                if fam and props == ["C04", "C01"]:
+                    props = fam  # the operation family the function belongs to, when it is not a mutator
                 obs.append(ctx.ob("REC-FWD", props, w, f"recursive call of {w.qualname} passes `{p}`", c, ok,
                                   "" if ok else f"`{norm(c)}` omits `{p}`: the inner call runs with the default instead of the caller's choice"))
     return obs
